@@ -6,7 +6,13 @@ Correspondence (harness/io_drv.cc = real Writer/Reader/save/load, ocaml/io_drive
           (ii) parsed by the typed model reader AND the independent grammar (`chk`)
   load    files written by the real code and files written by the model are loaded by the real
           code into a fresh object of the same structure; every 32-bit word must come back
-  layout  element (i, j, ..., b) through the public API vs. the word at the column-major offset"""
+  layout  element (i, j, ..., b) through the public API vs. the word at the column-major offset
+  hdr     str/bin/ext/array/map of up to 32 MiB / 2^20 elements: header bytes, total length, read back
+  bigparam one Parameter of 2^22 floats: real save()/load(), file prefix and length vs. the model
+Translators (re-run on every check): gen_io_consts.py -> Gen/IoConsts.v, gen_io_headers.py -> Gen/IoHeaders.v
+(every header byte expression / guard of writer.h, every type-byte test / byte assembly of reader.h);
+when their theorems fail, header_search() looks for a concrete size / value on which the real Writer
+or Reader disagrees with the model."""
 import importlib
 import os
 import sys
@@ -105,6 +111,99 @@ def object_cases(ctx):
     return objs
 
 
+HDR_SMALL = [0, 15, 16, 31, 32, 255, 256, 65535, 65536, 65537]
+HDR_BIG = [1 << 20, (1 << 24) - 1, 1 << 24, (1 << 24) + 1, 1 << 25]
+EXT_SIZES = [0, 1, 2, 3, 4, 5, 8, 9, 16, 17, 255, 256, 65535, 65536, 65537, 1 << 20, (1 << 24) - 1, 1 << 24, (1 << 24) + 1]
+
+
+def hdr_cases(ctx):
+    """(case lines, {kind: sizes})"""
+    r = ctx.rng
+    cont = [0, 1, 15, 16, 17, 65535, 65536, 65537] + ([] if ctx.quick() else [1 << 20])
+    sizes = {"bin": HDR_SMALL + HDR_BIG, "str": HDR_SMALL + HDR_BIG, "ext": EXT_SIZES, "arr": cont, "map": cont}
+    extra = sorted({r.randrange(1 << 16, 1 << 25) for _ in range(2 if ctx.quick() else 12)})
+    sizes["bin"] = sizes["bin"] + extra
+    sizes["str"] = sizes["str"] + extra
+    out = []
+    for k in ("bin", "str", "arr", "map"):
+        out += ["hdr %s %d" % (k, n) for n in sizes[k]]
+    out += ["hdr ext %d %d" % (n, r.choice([0, 1, -1, 127, -128, -2])) for n in sizes["ext"]]
+    return out, sizes
+
+
+# ---- failing-input search for a broken header theorem (Msgpack/HeadersMatch.v)
+SEARCH_LIMIT = {"HkStr": 1 << 26, "HkBin": 1 << 26, "HkExt": 1 << 26, "HkArr": 1 << 22, "HkMap": 1 << 20}
+SCALAR_CASE = {"HkU8": ("u8", 8, False), "HkU16": ("u16", 16, False), "HkU32": ("u32", 32, False), "HkU64": ("u64", 64, False),
+               "HkI8": ("i8", 8, True), "HkI16": ("i16", 16, True), "HkI32": ("i32", 32, True), "HkI64": ("i64", 64, True),
+               "HkF32": ("f32", 32, False), "HkF64": ("f64", 64, False)}
+
+
+def row_candidates(r):
+    """sizes / values of the row's guard range that expose a wrong byte: both ends of the range, and for
+    every shift amount s of the row (and every multiple of 8) the smallest value whose byte at that
+    position is non-zero (2^s), its neighbours and an all-ones byte there; small ranges entirely"""
+    lo, hi = r["lo"], r["hi"]
+    c = {lo, lo + 1, hi - 1, hi - 2}
+    for s in {b[1] for b in r["bytes"] if b[0] == "HSh"} | set(range(0, 64, 8)):
+        c |= {1 << s, (1 << s) + 1, (1 << s) - 1, 255 << s}
+    if hi - lo <= 256:
+        c |= set(range(lo, hi))
+    if r["sel"][0] == "SEq":
+        c = {r["sel"][1]}
+    elif r["sel"][0] == "SNot":
+        c -= set(r["sel"][1])
+    return sorted(v for v in c if lo <= v < hi)
+
+
+def case_of(kind, v):
+    if kind in SEARCH_LIMIT:
+        if v > SEARCH_LIMIT[kind]:
+            return None
+        return "hdr %s %d%s" % (kind[2:].lower(), v, " -2" if kind == "HkExt" else "")
+    if kind == "HkNil":
+        return "raw nil"
+    if kind == "HkBool":
+        return "raw bool %d" % v
+    ty, bits, signed = SCALAR_CASE[kind]
+    if v >= 1 << bits:
+        return None
+    return "raw %s %d" % (ty, v - (1 << bits) if signed and v >= 1 << (bits - 1) else v)
+
+
+def header_search(ctx, hd, impl, model, env):
+    """the rows read from the current source no longer are the model's: run the real Writer + Reader
+    and the model on sizes / values computed from every row; a disagreement is the failing input"""
+    cases, origin, beyond = [], {}, 0
+    for r in hd["writer"]:
+        for v in row_candidates(r):
+            c = case_of(r["kind"], v)
+            if c is None:
+                beyond += 1
+            elif c not in origin:
+                origin[c] = r
+                cases.append(c)
+    # reader-only kinds of trouble are exercised by the same round trips
+    ctx.cov["header_search"] = {"cases": len(cases), "candidates_beyond_64MiB_or_element_limit": beyond}
+    if not cases:
+        return 0
+    rc1, o1 = io.run_impl(impl, cases, env)
+    rc2, o2 = io.run_model(model, cases)
+    found = 0
+    for c, a, b in zip(cases, o1 + ["<no output>"] * (len(cases) - len(o1)), o2 + ["<no output>"] * (len(cases) - len(o2))):
+        if a != b:
+            found += 1
+            if found <= 3:
+                r = origin[c]
+                desc = "`%s`" % importlib.import_module("gen_io_headers").coq_row(r)
+                ctx.violation("hdr-search", {"kind": "correspondence", "engine": "io-hdr-search", "case": c, "impl": a[:400], "model": b[:400],
+                                             "source_row": desc, "witness": "io-hdr-search :: " + c, "impl_driver": impl, "model_driver": model,
+                                             "no_longer_checks": ctx.proof["failed"]}, True,
+                              "a header theorem no longer checks (%s); case `%s` (from the row %s): real Writer/Reader `%s` vs model `%s`"
+                              % (", ".join(ctx.proof["failed"])[:200], c, desc, a[:120], b[:120]))
+    ctx.cov["header_search"]["disagreements"] = found
+    return found
+
+
 def run(ctx):
     ctx.level = "proof"
     # (T) regenerate Gen/IoConsts.v from file_format.h / writer.h, then check the theorems
@@ -115,6 +214,9 @@ def run(ctx):
         gen.main()
     except Exception as e:  # the source no longer has the shape the translator reads
         gen_ok, gen_msg = False, "translate/gen_io_consts.py: %s" % e
+    # (T) every header byte expression / guard of writer.h and every test / byte assembly of reader.h
+    # -> Gen/IoHeaders.v; what is not understood becomes a row the theorems reject (never an exception)
+    hd = importlib.import_module("gen_io_headers").main()
     res = ctx.prove()
     impl, model = io.drivers(ctx)
     env = io.impl_env()
@@ -244,11 +346,27 @@ def run(ctx):
     dist["layout"] = len(lay)
     pv.correspondence(ctx, "io-layout", lay, impl, model, functional=True, impl_env=env)
 
+    # ---- 6. large sizes: header bytes, total length and read-back without materialising the payload in the model
+    hdr, hdr_sizes = hdr_cases(ctx)
+    dist["hdr"] = len(hdr)
+    pv.correspondence(ctx, "io-hdr", hdr, impl, model, functional=True, impl_env=env)
+    big = ["bigparam 3 0", "bigparam 63 1", "bigparam 64 1", "bigparam 16384 0", "bigparam %d 1" % (1 << 22)] + ([] if ctx.quick() else ["bigparam %d 0" % ((1 << 22) + 1)])
+    dist["bigparam"] = len(big)
+    pv.correspondence(ctx, "io-bigparam", big, impl, model, functional=True, impl_env=env)
+    cov["header_sizes_exercised"] = dict((k, sorted(set(v))) for k, v in hdr_sizes.items())
+    cov["largest_parameter_file_round_trip_floats"] = 1 << 22
+    cov["header_rows"] = {"writer_rows": len(hd["writer"]), "writer_payload_forms": len(hd["pays"]) + len(hd["str_entry"]),
+                          "reader_rows": len(hd["reader"]), "reader_get_functions": len(hd["gets"]),
+                          "not_understood": [r["note"] for r in hd["writer"] + hd["reader"] if r["note"]] + hd["notes"],
+                          "unknown_overloads": hd["writer_unknown"] + hd["reader_unknown"],
+                          "proved_for": "every kind, every size / value below 2^64, every type byte and byte stream (theorems C13_writer_headers_match, C13_reader_headers_match)"}
+
     if not ctx.quick():
         io.coqchk(ctx, ctx.pid)
         impl_a, _ = io.drivers(ctx, "asan")
         env_a = io.impl_env("asan")
         pv.correspondence(ctx, "io-raw-asan", raw, impl_a, model, functional=True, impl_env=env_a)
+        pv.correspondence(ctx, "io-hdr-asan", hdr + big[:4], impl_a, model, functional=True, impl_env=env_a)
         pv.correspondence(ctx, "io-load-asan", load_lines, impl_a, model, functional=True, impl_env=env_a,
                           nontrivial=lambda c, out: out.startswith("ok"))
         rc, ah = io.run_impl(impl_a, save_lines, env_a)
@@ -258,14 +376,19 @@ def run(ctx):
     cov["input_distribution"] = dist
     ctx.add_samples([raw[5], raw[-1][:200], save_lines[0][:300], save_lines[len(save_lines) // 2][:300], load_lines[0][:300], lay[0][:200]])
     cov["exhaustive"] = False
-    cov["translator"] = "translate/gen_io_consts.py -> coq/Gen/IoConsts.v (regenerated on this run: %s)" % ("ok" if gen_ok else gen_msg)
+    cov["translator"] = ("translate/gen_io_consts.py -> coq/Gen/IoConsts.v (regenerated on this run: %s); "
+                         "translate/gen_io_headers.py -> coq/Gen/IoHeaders.v (regenerated on this run: %d writer rows, %d reader rows)"
+                         % ("ok" if gen_ok else gen_msg, len(hd["writer"]), len(hd["reader"])))
     ctx.assumptions += [
-        "Codec.v / FileFormat.v are hand transcriptions of msgpack/{writer,reader}.h, parameter.cc, model.cc, optimizer.cc, optimizer_impl.cc; tied to the code by the correspondence above and, for type bytes / length-class limits / version / data-type tags, by the regenerated Gen/IoConsts.v (theorem consts_match)",
+        "Codec.v / FileFormat.v are hand transcriptions of msgpack/{writer,reader}.h, parameter.cc, model.cc, optimizer.cc, optimizer_impl.cc; tied to the code by the correspondence above and, for type bytes / length-class limits / version / data-type tags, by the regenerated Gen/IoConsts.v (theorem consts_match); the headers (guards, byte expressions, shifts, masks, buffer sizes, write counts of every Writer overload; type-byte tests and byte assembly of the Reader) by the regenerated Gen/IoHeaders.v (theorems C13_writer_headers_match / C13_reader_headers_match)",
+        "meaning given to the source's expressions in HeaderRows.v / ReaderRows.v: PRIMITIV_UC(e) keeps the low 8 bits of e; `x >> k` on a signed integer is the arithmetic shift (integers are handled through their two's complement image); `c[i] << s` on a promoted uint8_t has the value c[i] * 2^s; the translator reads the 64-bit branch (PRIMITIV_WORDSIZE_64) textually (no macro expansion other than the check that PRIMITIV_UC / PRIMITIV_ULL are the plain casts); how the payload loops call operator<< / operator>> per element is compared as text only",
         "strings, binaries and containers shorter than 2^32 bytes / elements and tensors below 2^30 elements (beyond that the Writer throws Error or, for containers, writes no header); 64-bit build (PRIMITIV_WORDSIZE_64)",
         "a float is identified with the 32-bit word memcpy gives; moving floats through std::vector<float> / Tensor does not alter NaN payloads on the build target (checked by the correspondence, not modelled)",
         "Parameter objects reachable under two different paths of one Model (shared between submodels) are outside the model; unordered_map iteration order is unspecified: files are compared up to that order only where a map holds more than one entry",
     ]
     if not gen_ok:
         ctx.violation("translator", {"kind": "translator", "message": gen_msg}, False, gen_msg)
-    if not res["ok"]:
-        ctx.proof_broken()
+    if not res["ok"] or not gen_ok:
+        found = header_search(ctx, hd, impl, model, env)
+        if not res["ok"] and not found:
+            ctx.proof_broken({"header_rows_not_understood": cov["header_rows"]["not_understood"]})
